@@ -333,6 +333,22 @@ Proof.
     + intro Hf. apply mem_In. exact (forallb_In _ _ _ f H3 Hf).
 Qed.
 
+(* the bits each host guard mentions are the committed ones; the integrator guards have the committed
+   meaning and forward.implicit's guard mentions every bit derivative.deriv_smooth_vel's host tests mention *)
+Lemma guard_bits_ok_true : guard_bits_ok = true.
+Proof. vm_compute. reflexivity. Qed.
+
+Theorem guard_bits_committed :
+  (forall q, In q guard_bits -> gb_mem q guard_bits_expected = true) /\
+  (forall q, In q guard_bits_expected -> gb_mem q guard_bits = true).
+Proof.
+  pose proof guard_bits_ok_true as H. unfold guard_bits_ok in H. destruct (andb_prop _ _ H) as [H1 H2].
+  split; intros q Hq; [exact (forallb_In _ _ _ q H1 Hq) | exact (forallb_In _ _ _ q H2 Hq)].
+Qed.
+
+Lemma integrator_guards_ok : implicit_guard_ok = true /\ euler_guard_ok = true.
+Proof. split; vm_compute; reflexivity. Qed.
+
 (* ====================================================================================== *)
 (* facts about the regenerated host program                                                  *)
 (* ====================================================================================== *)
